@@ -53,7 +53,7 @@ def rand_value(rng, bw):
 
 def rand_design(rng, profile='small', nops=None, nin=None, ops=None, nregs=None, nmems=None,
                 nroms=None, raw=True, consts=True, max_total=400, name_style='plain',
-                outputs='most', async_mem=True, wide_mem=True):
+                outputs='most', async_mem=True, wide_mem=True, twins=False):
     """Build a random design in a fresh working block and return a Design."""
     pyrtl.reset_working_block()
     widths = {'small': W_SMALL, 'limb': W_LIMB, 'med': W_MED}[profile]
@@ -196,10 +196,13 @@ def rand_design(rng, profile='small', nops=None, nin=None, ops=None, nregs=None,
             elif op == 'constop':
                 bw = len(a)
                 c1 = Const(rand_value(rng, bw), bw)
-                w = rng.choice([lambda: a & c1, lambda: a | c1, lambda: a ^ c1, lambda: a + c1,
-                                lambda: c1 - a, lambda: a * Const(rng.getrandbits(2), 2),
-                                lambda: a == c1, lambda: a < c1, lambda: select(a[0], c1, a),
-                                lambda: c1.nand(a)])()
+                forms = [lambda: a & c1, lambda: a | c1, lambda: a ^ c1, lambda: a + c1,
+                         lambda: c1 - a, lambda: a * Const(rng.getrandbits(2), 2),
+                         lambda: a == c1, lambda: a < c1, lambda: select(a[0], c1, a),
+                         lambda: c1.nand(a)]
+                if 'nand' not in ops:
+                    forms.pop()
+                w = rng.choice(forms)()
             elif op == 'constreg':
                 bw = rng.choice(widths)
                 r_ = Register(bw, reset_value=rng.choice([None, 0, rand_value(rng, bw)]))
@@ -257,6 +260,20 @@ def rand_design(rng, profile='small', nops=None, nin=None, ops=None, nregs=None,
         d.ops_used.append(op)
         pool.append(w)
 
+    if twins:
+        # "twin" nets: the same op on a permutation of an existing net's arguments (what a careless
+        # common-subexpression pass would merge)
+        for net in list(working_block().logic):
+            if net.op in '&|^n+-*<>=xc' and len(net.args) >= 2 and rng.random() < 0.3:
+                args = list(net.args)
+                if net.op == 'x':
+                    args = [args[0], args[2], args[1]]
+                else:
+                    rng.shuffle(args)
+                out = WireVector(len(net.dests[0]))
+                working_block().add_net(LogicNet(net.op, net.op_param, tuple(args), (out,)))
+                pool.append(out)
+                d.ops_used.append('twin')
     for r in d.regs:
         src = pick()
         if raw and len(src) > len(r) and rng.random() < 0.5:
